@@ -187,6 +187,10 @@ func Draw(t *sim.Tape, p DrawParams) *Workload {
 				st.Ops = append(st.Ops, simfn.Op{"op": "result", "severity": []string{"normal", "warning"}[t.Next(2)], "message": "note-from-" + st.Name})
 			}
 		}
+		if p.Conn && t.Next(3) == 0 {
+			// a key that is only published while the XR has spec.mode set
+			st.Ops = append(st.Ops, simfn.Op{"op": "conn", "key": "user", "value": "m-" + st.Name, "onlyIf": "spec.mode"})
+		}
 		if p.Conn && t.Next(2) == 0 {
 			st.Ops = append(st.Ops, simfn.Op{"op": "conn", "key": []string{"user", "pass", "extra"}[t.Next(3)], "value": "v-" + st.Name})
 		}
